@@ -1,5 +1,5 @@
 \* emission, single blocks: every configuration, k in -13..13, whole graph
-CONSTANTS K = 13  H = 5  NB = 1  Layouts = {"p1", "p7", "p19", "singles", "mixed", "nogrid"}  TieDi = FALSE  MaxLevel = 3
+CONSTANTS K = 13  H = 5  NB = 1  Layouts = {"p1", "p7", "p19", "singles", "mixed", "nogrid", "prism", "families"}  TieDi = FALSE  MaxLevel = 3
 ACTION_CONSTRAINT Emit
 INVARIANT EmitState
 INIT Init
